@@ -23,7 +23,18 @@ def main():
         if args.replay:
             with open(args.replay, 'rt', encoding='utf-8') as f:
                 rec = json.load(f)
-            res = mod.replay(rec['witness'])
+            if isinstance(rec['witness'], dict) and rec['witness'].get('_rerun_shard'):
+                # a violation that only shows with the process history of its shard: run that shard again
+                # (same seed, generous budget) and keep what it reports for this mechanism
+                spec = dict(rec['witness']['_rerun_shard'])
+                res = mod.run_shard(spec)
+                res = res.as_dict() if hasattr(res, 'as_dict') else res
+                res['violations'] = [
+                    v for v in res.get('violations', [])
+                    if (v.get('mechanism') or ('unclassified/' + v.get('clause', '?'))) == rec.get('mechanism')
+                ]
+            else:
+                res = mod.replay(rec['witness'])
         else:
             with open(args.spec, 'rt', encoding='utf-8') as f:
                 spec = json.load(f)
